@@ -12,6 +12,8 @@ import Rtsp.Model.Codec.Fragmented
 import Rtsp.Model.Codec.Mpeg1Video
 import Rtsp.Model.Codec.AudioCommon
 import Rtsp.Model.Codec.Lpcm
+import Rtsp.Generated.Facts.CodecH26x
+import Rtsp.Generated.Facts.CodecAudio
 /-
 Bridge theorems, packet counts (C06 / C03): the `packetCount` helper of every fragmenting encoder,
 as translated from /repo's current source by go/cmd/g2l (Generated/Trans/Pc*.lean, Go `int` =
@@ -142,5 +144,82 @@ theorem pcNat_is_ceiling (avail le : Nat) (ha : 0 < avail) :
 
 /-- non-vacuity: the hypotheses are met by ordinary values, and the count is what one expects -/
 example : (Trans.PcH264.packetCount (Int64.ofNat 1448) (Int64.ofNat 4000)).toInt = 3 ∧ pcNat 1448 4000 = 3 := by decide
+
+/-! ### the arguments the encoders pass to `packetCount` -/
+
+/-- `avail := e.PayloadMaxSize - k` in the fragmenting branch of H264 (k = 2), H265 (3), AC-3 (4) and
+MPEG-1 audio (4): for every limit that leaves room (`k ≤ max`), the translated expression is the
+model's `max - k` with `k` the regenerated fact the model reads. -/
+theorem fragAvail_eq (mx : Nat) (h : mx < 2 ^ 63) :
+    (Facts.CodecH26x.h264FuHeaderLen ≤ mx →
+      (Trans.PcH264.fragAvail (Int64.ofNat mx)).toInt = ((mx - Facts.CodecH26x.h264FuHeaderLen : Nat) : Int))
+  ∧ (Facts.CodecH26x.h265FuHeaderLen ≤ mx →
+      (Trans.PcH265.fragAvail (Int64.ofNat mx)).toInt = ((mx - Facts.CodecH26x.h265FuHeaderLen : Nat) : Int))
+  ∧ (Facts.CodecAudio.ac3FragReserveBytes ≤ mx →
+      (Trans.PcAc3.fragAvail (Int64.ofNat mx)).toInt = ((mx - Facts.CodecAudio.ac3FragReserveBytes : Nat) : Int))
+  ∧ (Facts.CodecAudio.mpeg1audioFragHeaderBytes ≤ mx →
+      (Trans.PcMpeg1audio.fragAvail (Int64.ofNat mx)).toInt = ((mx - Facts.CodecAudio.mpeg1audioFragHeaderBytes : Nat) : Int)) := by
+  have hM := toInt_ofNat_of_lt h
+  have k2 : Facts.CodecH26x.h264FuHeaderLen = 2 := by decide
+  have k3 : Facts.CodecH26x.h265FuHeaderLen = 3 := by decide
+  have k4 : Facts.CodecAudio.ac3FragReserveBytes = 4 := by decide
+  have k4' : Facts.CodecAudio.mpeg1audioFragHeaderBytes = 4 := by decide
+  have c2 : (2 : Int64).toInt = 2 := rfl
+  have c3 : (3 : Int64).toInt = 3 := rfl
+  have c4 : (4 : Int64).toInt = 4 := rfl
+  rw [k2, k3, k4, k4']
+  refine ⟨?_, ?_, ?_, ?_⟩ <;> intro hk
+  · unfold Trans.PcH264.fragAvail
+    rw [toInt_sub_of_inRange] <;> rw [hM, c2]
+    · omega
+    · unfold InRange64; omega
+  · unfold Trans.PcH265.fragAvail
+    rw [toInt_sub_of_inRange] <;> rw [hM, c3]
+    · omega
+    · unfold InRange64; omega
+  · unfold Trans.PcAc3.fragAvail
+    rw [toInt_sub_of_inRange] <;> rw [hM, c4]
+    · omega
+    · unfold InRange64; omega
+  · unfold Trans.PcMpeg1audio.fragAvail
+    rw [toInt_sub_of_inRange] <;> rw [hM, c4]
+    · omega
+    · unfold InRange64; omega
+
+/-- `le := len(nalu) - 1` (H264) / `- 2` (H265): the NALU without its header, as `nalu.drop k` in the models -/
+theorem fragLen_eq (n : Nat) (h : n < 2 ^ 63) :
+    (1 ≤ n → (Trans.PcH264.fragLen (Int64.ofNat n)).toInt = ((n - 1 : Nat) : Int))
+  ∧ (2 ≤ n → (Trans.PcH265.fragLen (Int64.ofNat n)).toInt = ((n - 2 : Nat) : Int)) := by
+  have hN := toInt_ofNat_of_lt h
+  have c1 : (1 : Int64).toInt = 1 := rfl
+  have c2 : (2 : Int64).toInt = 2 := rfl
+  refine ⟨?_, ?_⟩ <;> intro hk
+  · unfold Trans.PcH264.fragLen
+    rw [toInt_sub_of_inRange] <;> rw [hN, c1]
+    · omega
+    · unfold InRange64; omega
+  · unfold Trans.PcH265.fragLen
+    rw [toInt_sub_of_inRange] <;> rw [hN, c2]
+    · omega
+    · unfold InRange64; omega
+
+/-- LPCM `Init`: `e.maxPayloadSize = (e.PayloadMaxSize / e.sampleSize) * e.sampleSize` is the model's
+`cfg.max / ss * ss` (the payload limit rounded down to whole sample frames), for every positive sample size -/
+theorem lpcm_roundedMax_eq (mx ss : Nat) (hm : mx < 2 ^ 63) (hs : 0 < ss) (hs' : ss < 2 ^ 63) :
+    (Trans.PcLpcm.roundedMax (Int64.ofNat mx) (Int64.ofNat ss)).toInt = ((mx / ss * ss : Nat) : Int) := by
+  unfold Trans.PcLpcm.roundedMax
+  have hM := toInt_ofNat_of_lt hm
+  have hS := toInt_ofNat_of_lt hs'
+  have hdiv : ((mx : Int).tdiv (ss : Int)) = ((mx / ss : Nat) : Int) := by
+    rw [Int.tdiv_eq_ediv_of_nonneg (by omega)]; simp
+  have hle : mx / ss * ss ≤ mx := Nat.div_mul_le_self mx ss
+  have hq : mx / ss ≤ mx := Nat.div_le_self _ _
+  generalize mx / ss = q at *
+  have hQ : (Int64.ofNat mx / Int64.ofNat ss).toInt = (q : Int) := by
+    rw [toInt_div_of_inRange] <;> rw [hM, hS, hdiv]
+    unfold InRange64; omega
+  have hprod : (q : Int) * (ss : Int) = ((q * ss : Nat) : Int) := by push_cast; rfl
+  rw [toInt_mul_of_inRange] <;> rw [hQ, hS, hprod]
+  unfold InRange64; omega
 
 end Rtsp.Bridge.Pc
